@@ -32,11 +32,16 @@ def np_call(e: ast.AST, name: str) -> bool:
     return isinstance(e, ast.Call) and dotted(e.func) in (f"np.{name}", f"numpy.{name}")
 
 
-def strip_cast(e: ast.AST):
-    """float(x) / int(x) / x.tolist() / list(x) -> (inner, [casts])"""
+def strip_cast(e: ast.AST, fnode=None):
+    """float(x) / int(x) / x.tolist() / list(x) -> (inner, [casts]); local names are followed when fnode is given"""
     casts = []
     cur = e
     while True:
+        if fnode is not None and isinstance(cur, ast.Name):
+            nxt = origin(fnode, cur)
+            if nxt is not cur:
+                cur = nxt
+                continue
         if isinstance(cur, ast.Call) and isinstance(cur.func, ast.Name) and cur.func.id in ("float", "int", "list", "tuple") \
                 and len(cur.args) == 1 and not cur.keywords:
             casts.append(cur.func.id)
@@ -126,7 +131,7 @@ def analyse_correct(prog: Program, ci: ClassInfo, fi: FuncInfo) -> tuple:
     if rv is None:
         return "unknown", "no single return", None
     rv = origin(fi.node, rv)
-    inner, casts = strip_cast(rv)
+    inner, casts = strip_cast(rv, fi.node)
     val = fi.params[1] if len(fi.params) > 1 else None
     if np_call(inner, "clip") and len(inner.args) == 3 and not inner.keywords:
         if not (isinstance(inner.args[0], ast.Name) and inner.args[0].id == val):
@@ -180,7 +185,7 @@ def children_class(prog: Program, ci: ClassInfo) -> Optional[str]:
         return None
     for n in own_nodes(init):
         if isinstance(n, ast.Assign) and any(dotted(t) == "self._children" for t in n.targets):
-            v = n.value
+            v = origin(init.node, n.value) if isinstance(n.value, ast.Name) else n.value
             if isinstance(v, ast.ListComp) and isinstance(v.elt, ast.Call) and isinstance(v.elt.func, ast.Name):
                 return v.elt.func.id
     return None
